@@ -80,6 +80,24 @@ def case(cfg, trims):
             bad.append(("run-raises", f"re-opening a finished run raised {type(e).__name__}: {e}"))
         finally:
             shutil.rmtree(tmp, ignore_errors=True)
+    # a second run() on the same object (the library keeps the stored history and tops it up; whether that is a fresh start is
+    # not stated anywhere, so only the postconditions of run() are judged)
+    if c.get("rerun"):
+        try:
+            np.random.seed(c["seed"] + 17)
+            n2 = int(c["n_total"] * (1.5 if c["seed"] % 2 else 0.75))
+            s.run(n_total=n2, progress=False)
+            H2 = runs.history(s)
+            _, lwn2, lz2, ess2 = mis_ref(H2["logl"], H2["beta"], H2["logz"], 1.0)
+            out["rerun"] = 1
+            if abs(1 - float(s.state.get_current("beta"))) >= 1e-4 or float(ess2) < n2 * (1 - 1e-9):
+                bad.append(("post-ess", f"second run(n_total={n2}) on the same object ended at beta={float(s.state.get_current('beta'))}, reference ESS {float(ess2):.2f}"))
+            ev2 = float(s.evidence()[0])
+            if abs(ev2 - float(lz2)) > 1e-8 * (1 + abs(float(lz2))):
+                bad.append(("post-evidence", f"after a second run() on the same object evidence()={ev2!r} but the MIS evidence of the stored history is {float(lz2)!r}"))
+            H, lwn = H2, lwn2
+        except Exception as e:
+            bad.append(("run-raises", f"second run() on the same object raised {type(e).__name__}: {e}"))
     # reference log-weight per particle content
     xflat = np.concatenate(H["x"])
     ref_lw = {}
@@ -224,7 +242,7 @@ def run():
     trims = TRIMS[:5] if ck.quick else TRIMS
     ck.tables["pairwise_coverage"] = cover.coverage(rows, FACTORS, 2)
     ck.tables["threeway_coverage"] = cover.coverage(rows, FACTORS, 3)
-    tasks = [("tvf.checks.c12:case", dict(cfg=dict(to_cfg(r, ck.subseed("cfg", i)), reopen=(i % 2 == 0)), trims=trims), None) for i, r in enumerate(rows)]
+    tasks = [("tvf.checks.c12:case", dict(cfg=dict(to_cfg(r, ck.subseed("cfg", i)), reopen=(i % 2 == 0), rerun=(i % 3 == 1)), trims=trims), None) for i, r in enumerate(rows)]
     for i, st, val in farm.run(tasks, timeout=900, progress="C12"):
         cfg = tasks[i][1]["cfg"]
         if st == "timeout":
@@ -237,6 +255,7 @@ def run():
         ck.event("completed runs with postconditions checked")
         ck.event("posterior() option combinations called", val["combos"])
         ck.event("finished runs re-opened from their final checkpoint", val.get("reopened", 0))
+        ck.event("second run() on the same sampler object judged", val.get("rerun", 0))
         ck.event("posterior rows identified through the evaluation log", val["rows"])
         seen = set()
         for key, what in val["bad"]:
